@@ -632,3 +632,170 @@ def wrapper_chain(v, limit=60):
         steps.append(r[0])
         v = r[1]
     return steps, v
+
+
+# ---------------------------------------------------------------------------
+# statement text that is insensitive to the names of local variables
+
+
+def _locals_of(fnode):
+    """names bound inside a function that are not parameters / globals"""
+    if not isinstance(fnode, (ast.FunctionDef, ast.Lambda)):
+        stores = {n.id for n in ast.walk(fnode) if isinstance(n, ast.Name)
+                  and isinstance(n.ctx, ast.Store)}
+        return stores
+    params = {a.arg for a in fnode.args.posonlyargs + fnode.args.args +
+              fnode.args.kwonlyargs}
+    if fnode.args.vararg:
+        params.add(fnode.args.vararg.arg)
+    if fnode.args.kwarg:
+        params.add(fnode.args.kwarg.arg)
+    out = set()
+    for n in ast.walk(fnode):
+        if isinstance(n, ast.Name) and isinstance(n.ctx, ast.Store):
+            out.add(n.id)
+        elif isinstance(n, ast.ExceptHandler) and n.name:
+            out.add(n.name)
+        elif isinstance(n, ast.arg) and n.arg not in params:
+            out.add(n.arg)
+    for n in ast.walk(fnode):
+        if isinstance(n, (ast.Global, ast.Nonlocal)):
+            out -= set(n.names)
+    return out - params
+
+
+def unify(expected, actual, local_names, binds=None):
+    """Structural equality of two ast nodes modulo a consistent (injective)
+    renaming of the *local* names of the analysed function."""
+    binds = {} if binds is None else binds
+    if isinstance(expected, ast.Name) and isinstance(actual, ast.Name):
+        if expected.id == actual.id and expected.id not in binds and \
+                actual.id not in binds.values():
+            return binds
+        if actual.id in local_names:
+            if expected.id in binds:
+                return binds if binds[expected.id] == actual.id else None
+            if actual.id in binds.values():
+                return None
+            binds[expected.id] = actual.id
+            return binds
+        return binds if expected.id == actual.id else None
+    if type(expected) is not type(actual):
+        return None
+    if isinstance(expected, ast.ExceptHandler):
+        if (expected.name is None) != (actual.name is None):
+            return None
+        if expected.name is not None and expected.name != actual.name:
+            if actual.name not in local_names:
+                return None
+            if binds.get(expected.name, actual.name) != actual.name:
+                return None
+            binds[expected.name] = actual.name
+    for f in expected._fields:
+        if f == "ctx" or (isinstance(expected, ast.ExceptHandler) and
+                          f == "name"):
+            continue
+        ev, av = getattr(expected, f, None), getattr(actual, f, None)
+        if isinstance(ev, list):
+            if not isinstance(av, list) or len(ev) != len(av):
+                return None
+            for a, b in zip(ev, av):
+                if isinstance(a, ast.AST):
+                    if unify(a, b, local_names, binds) is None:
+                        return None
+                elif a != b:
+                    return None
+        elif isinstance(ev, ast.AST):
+            if not isinstance(av, ast.AST) or \
+                    unify(ev, av, local_names, binds) is None:
+                return None
+        else:
+            if f in ("lineno", "col_offset", "end_lineno", "end_col_offset",
+                     "type_comment", "kind"):
+                continue
+            if ev != av:
+                return None
+    return binds
+
+
+class StmtText(str):
+    """The statements of a function as one line of text; ``x in text`` is
+    true if ``x`` occurs literally *or* if x parses as an expression /
+    statement that equals some expression / statement of the function up to
+    a renaming of the function's local variables."""
+
+    def __new__(cls, node, stmts=None):
+        if stmts is None:
+            stmts = [s for s in ast.walk(node) if isinstance(s, ast.stmt)]
+        inst = str.__new__(cls, " ".join(src(s) for s in stmts))
+        inst.node = node
+        inst.stmts = stmts
+        inst.locals = _locals_of(node)
+        return inst
+
+    def _parse(self, text):
+        for mode in ("eval", "exec"):
+            for cand in (text,
+                         text.replace(" else: ", "\nelse: "),
+                         text.replace(" else: ", "\nelse:\n    ").replace(
+                             ": ", ":\n    ", 1)):
+                try:
+                    tree = ast.parse(cand, mode=mode)
+                except SyntaxError:
+                    continue
+                return mode, tree
+        return None, None
+
+    def __contains__(self, text):
+        if str.__contains__(self, text):
+            return True
+        mode, tree = self._parse(text)
+        if tree is None:
+            return False
+        if mode == "eval":
+            want = tree.body
+            for s in self.stmts:
+                for n in ast.walk(s):
+                    if isinstance(n, ast.expr) and type(n) is type(want) and \
+                            unify(want, n, self.locals, {}) is not None:
+                        return True
+            return False
+        wants = tree.body
+        if len(wants) == 1:
+            for top in self.stmts:
+                for s in ast.walk(top):
+                    if isinstance(s, ast.stmt) and unify(
+                            wants[0], s, self.locals, {}) is not None:
+                        return True
+            return False
+        # a run of consecutive statements in one block
+        blocks = []
+        for n in [x for top in self.stmts for x in ast.walk(top)] + \
+                [self.node]:
+            for fld in ("body", "orelse", "finalbody"):
+                b = getattr(n, fld, None)
+                if isinstance(b, list) and b and isinstance(b[0], ast.stmt):
+                    blocks.append(b)
+        for b in blocks:
+            for i in range(len(b) - len(wants) + 1):
+                binds = {}
+                if all(unify(w, b[i + k], self.locals, binds) is not None
+                       for k, w in enumerate(wants)):
+                    return True
+        return False
+
+
+def text(node, body_only=False):
+    """StmtText of a function node (all nested statements) or of its
+    top-level statements only."""
+    if body_only:
+        return StmtText(_owner(node), list(node.body))
+    return StmtText(node)
+
+
+def _owner(node):
+    """the function a node belongs to (its locals may be renamed)"""
+    n = node
+    while n is not None and not isinstance(n, ast.FunctionDef):
+        n = getattr(n, "_parent", None)
+    return n or node
